@@ -30,4 +30,7 @@ Next == MRNext
 Emit == (phase \in {"done", "fatal"}) =>
           CSVWrite("%1$s", <<ToJson([universe |-> U, root |-> Root, softonly |-> FALSE, attempts |-> attempt,
                                       model |-> [fatal |-> (phase = "fatal"), nodes |-> nodes, edges |-> edges]])>>, OutFile)
+\* liveness on the model: under weak fairness of the step relation every run stops (checked in the quick configuration)
+Spec == Init /\ [][Next]_mrvars /\ WF_mrvars(Next)
+EventuallyStops == <>(phase \in {"done", "fatal"})
 =============================================================================
